@@ -44,6 +44,9 @@ func getStatusWithMetadata(
 	updatedStatus.ResourcesStatus.Allocated = metaData.Allocated
 	if !metaData.Preemptible {
 		updatedStatus.ResourcesStatus.AllocatedNonPreemptible = metaData.Allocated
+	} else if len(updatedStatus.ResourcesStatus.AllocatedNonPreemptible) > 0 {
+		// the pod group became preemptible: what it held while it was not is no longer non-preemptible
+		updatedStatus.ResourcesStatus.AllocatedNonPreemptible = nil
 	}
 
 	return updatedStatus
